@@ -33,6 +33,11 @@ func Parse(regex string) (*auto.NFA, error) {
 		return nil, fmt.Errorf("invalid regular expression: %s", regex)
 	}
 
+	// The whole pattern must be consumed; a leftover suffix is not part of any construct.
+	if out.Remaining != nil {
+		return nil, fmt.Errorf("invalid regular expression: %s", regex)
+	}
+
 	if m.errors != nil {
 		return nil, m.errors
 	}
